@@ -1,3 +1,4 @@
 import CohdlVerif.Model.DriverLoop
--- model driver of property C15 (stub: no model entry points yet)
-def main : IO Unit := CohdlVerif.driverLoop (fun _ => "bad-op")
+import CohdlVerif.Model.C15
+-- model driver of property C15:  `run G TXD RXD tok*` | `step G TXC RXC DATA RXDATA tok` | `accepts SAME TXD RXD`
+def main : IO Unit := CohdlVerif.driverLoop CohdlVerif.C15.handle
